@@ -25,6 +25,7 @@ class RefWorld:
 		self.sig_order = []   # for each row of the signature file: genome index or None (padding)
 		self.sig_ids = []     # stored ids, file order
 		self.dir = None
+		self.decimal_query = None   # a 10-element set; some references are it minus j elements (distance exactly j/10)
 		self.gdb = None
 		self.gs = None
 
@@ -41,7 +42,7 @@ def make_taxonomy(rng, n_roots, max_depth, max_taxa):
 		if r < 0.25:
 			thr = None
 		else:
-			thr = round(rng.choice([0.05, 0.2, 0.4, 0.6, 0.8, 0.95, 1.0]) * rng.choice([1, 1, .9, .5]), 4)
+			thr = round(rng.choice([0.05, 0.2, 0.4, 0.6, 0.8, 0.95, 1.0, 0.1, 0.3, 0.7]) * rng.choice([1, 1, 1, .9, .5]), 4)
 		taxa.append(dict(id=tid, key=f'tax{tid}', name=f'Taxon {tid}' if rng.random() < .8 else f'T"{tid}, x',
 		                 rank=RANKS[min(depth, len(RANKS) - 1)] if rng.random() < .9 else None,
 		                 parent=parent, threshold=thr, report=rng.random() < 0.8,
@@ -79,9 +80,17 @@ def build(ctx, rng, kspec, n_genomes, dirname='db', id_attr=None, n_pad=None, ti
 		universe = min(4 ** kspec.k, 2 ** 40)
 		sig_sets = WS.make_collection(rng, n_genomes, universe, max_size=60)
 		base = WS.random_set(rng, universe, 12)
+		dq = WS.random_set(rng, universe, 10)
+		if len(dq) == 10:
+			w.decimal_query = dq
 		for gi in range(n_genomes):
 			r = rng.random()
-			if r < 0.25:
+			if r < 0.15 and w.decimal_query is not None:
+				# distance to decimal_query exactly j/10 - equal, as float32, to a threshold such as 0.2 that is not
+				# float32-representable
+				j = rng.randint(1, 9)
+				sig_sets[gi] = np.array(sorted(rng.sample(dq.tolist(), 10 - j)), dtype=np.uint64)
+			elif r < 0.35:
 				# equidistant family: base plus one private element
 				extra = rng.randrange(universe)
 				sig_sets[gi] = np.union1d(base, np.array([extra], dtype=np.uint64)).astype(np.uint64)
